@@ -205,6 +205,10 @@ impl Src {
 // ---------------------------------------------------------------------------------------------
 // child: run the cases of a job file, reporting through two files
 // ---------------------------------------------------------------------------------------------
+fn vm_bytes() -> u64 {
+    std::fs::read_to_string("/proc/self/statm").ok()
+        .and_then(|t| t.split_whitespace().next().and_then(|x| x.parse::<u64>().ok())).map(|pages| pages * 4096).unwrap_or(0)
+}
 thread_local! { static LAST_PANIC_AT: std::cell::RefCell<String> = std::cell::RefCell::new(String::new()); }
 fn child_main(job: &Value) {
     unsafe {
@@ -260,6 +264,11 @@ fn child_main(job: &Value) {
                 }
                 Ok(Err(_)) => { nerr += 1; if want { let _ = writeln!(res, "O\t{}\t{}\t1\t", si, i); } }
             }
+            // accumulated allocator state must not turn into a false alarm: ask to be restarted
+            if counter % 128 == 0 && vm_bytes() > AS_LIMIT / 3 {
+                let _ = writeln!(res, "C\t{}\t{}\t{}", si, nok, nerr);
+                std::process::exit(77);
+            }
             if (nok + nerr) % 2000 == 0 && nok + nerr > 0 { let _ = writeln!(res, "C\t{}\t{}\t{}", si, nok, nerr); nok = 0; nerr = 0; }
         }
         let _ = writeln!(res, "C\t{}\t{}\t{}", si, nok, nerr);
@@ -275,9 +284,9 @@ struct Fail { src: usize, i: usize, kind: &'static str, msg: String }
 #[derive(Clone, Debug)]
 struct ObsEv { src: usize, i: usize, code: u8, vals: Vec<i128> }
 #[derive(Default)]
-struct WorkerOut { ms: Vec<(usize, u64)>, fails: Vec<Fail>, obs: Vec<ObsEv>, ok: Vec<(usize, u64)>, err: Vec<(usize, u64)>, notes: Vec<String>, restarts: u64 }
+struct WorkerOut { recycled: u64, unconfirmed: u64, ms: Vec<(usize, u64)>, fails: Vec<Fail>, obs: Vec<ObsEv>, ok: Vec<(usize, u64)>, err: Vec<(usize, u64)>, notes: Vec<String>, restarts: u64 }
 
-fn run_worker(w: usize, globals: Vec<usize>, srcs: &[Src], strides: &[usize], names: &[&str], out: &str, limit: Duration) -> WorkerOut {
+fn run_worker(w: usize, globals: Vec<usize>, srcs: &[Src], strides: &[usize], names: &[&str], out: &str, limit: Duration, confirm: bool) -> WorkerOut {
     let mut o = WorkerOut::default();
     let job_path = format!("{}/c15_job_{}.json", out, w);
     let cur_path = format!("{}/c15_cur_{}.bin", out, w);
@@ -316,7 +325,7 @@ fn run_worker(w: usize, globals: Vec<usize>, srcs: &[Src], strides: &[usize], na
             let (c, _, _) = read_cur();
             if c != last { last = c; last_change = Instant::now(); }
             // the first case of a child also pays for building the trained codecs
-            else if last_change.elapsed() > limit + if c <= 1 { Duration::from_secs(10) } else { Duration::ZERO } {
+            else if last_change.elapsed() > limit + if c <= 1 { Duration::from_secs(4) } else { Duration::ZERO } {
                 let _ = child.kill();
                 timed_out = true;
                 break child.wait().ok();
@@ -327,6 +336,13 @@ fn run_worker(w: usize, globals: Vec<usize>, srcs: &[Src], strides: &[usize], na
         let clean = !timed_out && status.map(|s| s.success()).unwrap_or(false);
         if clean { break; }
         let (c, si, i) = read_cur();
+        if !timed_out && status.and_then(|s| s.code()) == Some(77) {
+            // the child asked for a fresh process after finishing case (si, i)
+            o.recycled += 1;
+            s0 = si; i0 = i + 1;
+            while s0 < globals.len() && i0 >= srcs[globals[s0]].len() { s0 += 1; i0 = 0; }
+            continue;
+        }
         if c == 0 {
             o.notes.push(format!("child of worker {} died before its first case ({:?})", w, status));
             break;
@@ -337,7 +353,15 @@ fn run_worker(w: usize, globals: Vec<usize>, srcs: &[Src], strides: &[usize], na
                 None => ("abort", format!("exit status {:?}", status.and_then(|s| s.code()))),
             }
         };
-        o.fails.push(Fail { src: globals[si], i, kind, msg });
+        // a death counts only if the case also kills a fresh child on its own
+        let confirmed = if confirm {
+            let (p, arg, bytes, _) = srcs[globals[si]].get(i);
+            let one = vec![Src::Explicit { cases: vec![(p, arg, bytes)] }];
+            let sub = run_worker(1000 + w, vec![0], &one, &[0], names, out, limit, false);
+            !sub.fails.is_empty()
+        } else { true };
+        if confirmed { o.fails.push(Fail { src: globals[si], i, kind, msg }); }
+        else { o.unconfirmed += 1; o.notes.push(format!("child death ({}: {}) on source {} case {} did not reproduce in a fresh process - not counted", kind, msg, globals[si], i)); }
         o.restarts += 1;
         if o.restarts > 3000 { o.notes.push(format!("worker {} gave up after 3000 restarts", w)); break; }
         s0 = si; i0 = i + 1;
@@ -345,7 +369,7 @@ fn run_worker(w: usize, globals: Vec<usize>, srcs: &[Src], strides: &[usize], na
         // in one source, the rest of that source is skipped (it already has its failing inputs)
         *deaths.entry(si).or_insert(0u32) += 1;
         if timed_out { *hangs.entry(srcs[globals[si]].parser()).or_insert(0u32) += 1; }
-        let hung = |k: usize| hangs.get(&srcs[globals[k]].parser()).copied().unwrap_or(0) >= 3;
+        let hung = |k: usize| hangs.get(&srcs[globals[k]].parser()).copied().unwrap_or(0) >= 2;
         if deaths[&si] >= 40 || hung(si) {
             o.notes.push(format!("source {} ({}) abandoned after repeated crashes/timeouts", globals[si], srcs[globals[si]].parser().map(|p| names[p]).unwrap_or("?")));
             s0 = si + 1; i0 = 0;
@@ -374,7 +398,7 @@ fn run_worker(w: usize, globals: Vec<usize>, srcs: &[Src], strides: &[usize], na
     o
 }
 
-fn run_all(srcs: &[Src], strides: &[usize], names: &[&str], out: &str, workers: usize, limit: Duration) -> WorkerOut {
+fn run_all(srcs: &[Src], strides: &[usize], names: &[&str], out: &str, workers: usize, limit: Duration, confirm: bool) -> WorkerOut {
     let weight = |g: usize| -> u64 { srcs[g].len() as u64 * srcs[g].parser().map(|p| cost_us(names[p])).unwrap_or(20) + 2000 };
     // longest sources first, greedily onto the least loaded worker
     let mut order: Vec<usize> = (0..srcs.len()).collect();
@@ -388,11 +412,11 @@ fn run_all(srcs: &[Src], strides: &[usize], names: &[&str], out: &str, workers: 
     let mut total = WorkerOut::default();
     std::thread::scope(|sc| {
         let hs: Vec<_> = buckets.into_iter().enumerate().filter(|(_, b)| !b.1.is_empty())
-            .map(|(w, b)| sc.spawn(move || run_worker(w, b.1, srcs, strides, names, out, limit))).collect();
+            .map(|(w, b)| sc.spawn(move || run_worker(w, b.1, srcs, strides, names, out, limit, confirm))).collect();
         for h in hs {
             if let Ok(o) = h.join() {
                 total.ms.extend(o.ms); total.fails.extend(o.fails); total.obs.extend(o.obs); total.ok.extend(o.ok); total.err.extend(o.err);
-                total.notes.extend(o.notes); total.restarts += o.restarts;
+                total.notes.extend(o.notes); total.restarts += o.restarts; total.recycled += o.recycled; total.unconfirmed += o.unconfirmed;
             }
         }
     });
@@ -546,9 +570,11 @@ pub fn run(args: &Args) {
     let total_cases: usize = srcs.iter().map(|s| s.len()).sum();
     let workers = if replaying { 1 } else { 14 };
     let t0 = Instant::now();
-    let res = run_all(&srcs, &strides, &names, &args.out, workers, limit);
+    let res = run_all(&srcs, &strides, &names, &args.out, workers, limit, !replaying);
     sum.notes.extend(res.notes.iter().cloned());
     sum.dist_max("child_restarts", res.restarts);
+    sum.dist_max("child_recycled_for_memory", res.recycled);
+    sum.dist_max("child_deaths_not_reproduced", res.unconfirmed);
     sum.dist_max("oracle_wall_ms", t0.elapsed().as_millis() as u64);
     sum.dist_max("total_cases", total_cases as u64);
 
